@@ -7,7 +7,7 @@ MX=/tmp/mx2
 mkdir -p $MX
 if [ ! -d $MX/repo ]; then git -C /repo worktree add --detach $MX/repo HEAD >/dev/null 2>&1 || exit 2; fi
 head=$(git -C /repo rev-parse HEAD)
-(cd $MX/repo && git checkout -q --detach $head && git reset -q --hard) || exit 2
+(cd $MX/repo && git reset -q --hard && git checkout -q --detach $head && git reset -q --hard && [ "$(git rev-parse HEAD)" == "$head" ]) || { echo "scratch worktree not at HEAD"; exit 2; }
 mkdir -p $MX/runner
 cp /verif/runner/Cargo.lock $MX/runner/; sed "s|path = \"/repo/yarel\"|path = \"$MX/repo/yarel\"|" /verif/runner/Cargo.toml > $MX/runner/Cargo.toml
 rm -rf $MX/runner/src $MX/runner/.cargo; cp -r /verif/runner/src /verif/runner/.cargo $MX/runner/
